@@ -460,8 +460,39 @@ def run_engine_scenario(workload, skip, scripts, oracle, bound, *, shard=None, s
         errors = []
 
         def script(n):
+            if isinstance(n, (list, tuple)):
+                return chosen_script(n)
+
             def run():
                 for _ in range(n):
+                    try:
+                        fw.w.processor.process_one()
+                    except Exception as e:
+                        errors.append(type(e).__name__)
+            return run
+
+        def chosen_script(wanted):
+            """Deliver, in this order, the pending message whose 'Type:stage' label starts with each entry
+            (the queue does not promise an order between messages of different stages)."""
+            ids = {lab: sid for sid, lab in prep["view"].labels.items()}
+
+            def run():
+                import json as _json
+
+                from .world import EPOCH
+
+                for want in wanted:
+                    mtype, _, slab = want.partition(":")
+                    c = fw.w.conn
+                    row = None
+                    for r in c.execute("SELECT id, payload FROM queue_messages WHERE message_type = ? ORDER BY id", (mtype,)).fetchall():
+                        if not slab or _json.loads(r["payload"]).get("stage_id") == ids.get(slab):
+                            row = r
+                            break
+                    if row is None:
+                        continue
+                    c.execute("UPDATE queue_messages SET deliver_at = ? WHERE id = ?", (EPOCH, row["id"]))
+                    c.commit()
                     try:
                         fw.w.processor.process_one()
                     except Exception as e:
